@@ -725,14 +725,27 @@ def lastParsedCommand (fuel : Nat) (s : PState) : BStr :=
       | _ => []
   | _ => []
 
+/-- the regenerated skeleton of `ConsumeInvalidInput` is one of the two the model knows: `ConsumeUntilNewLine()`
+unconditionally, or (the repair proposed for `cause=bare-lf-swallows-next-line`) preceded by
+`if p.parser.Check(rfcparser.TokenTypeLF) { return nil }` — classified by the facts translator -/
+def consumeInvalidInputShapeKnown : Bool := Facts.consumeInvalidInputStopsAtLF.isSome
+
+/-- `ConsumeInvalidInput` returns at once when the current (look-ahead) token is LF; an unknown shape counts as
+the code as it was -/
+def skipStopsAtLookaheadLF : Bool := Facts.consumeInvalidInputStopsAtLF == some true
+
 /-- `Parser.ConsumeInvalidInput()` = `scanner.ConsumeUntilNewLine()` = `source.ReadBytes('\n')`: reads and
 discards bytes straight from the source up to and including the next LF; `false` = the source ended
 first (`io.EOF`; everything was consumed). The tokens are not touched: the byte that is the current
-token has already left the source. -/
+token has already left the source — so when the failed `Parse` stopped with the line's own LF as look-ahead
+(a line ended by a bare LF), the NEXT line is what gets skipped (`cause=bare-lf-swallows-next-line`), unless
+the function checks for that first (`skipStopsAtLookaheadLF`). -/
 def consumeInvalidInput (s : PState) : PState × Bool :=
-  match s.rest.dropWhile (· != 10) with
-  | [] => ({ s with rest := [] }, false)
-  | _ :: r => ({ s with rest := r }, true)
+  if skipStopsAtLookaheadLF && s.cur.ty == .lf then (s, true)
+  else
+    match s.rest.dropWhile (· != 10) with
+    | [] => ({ s with rest := [] }, false)
+    | _ :: r => ({ s with rest := r }, true)
 
 /-- run `Parse` once on a fresh parser over `input` -/
 def parse (fuel : Nat) (input : Bytes) : Res Command := parseLine fuel (PState.init input)
